@@ -299,6 +299,19 @@ impl<'a> TreeGen<'a> {
                 out.push(Node::Lines(vec![format!(".include \"{}\"", self.files[t].1)]));
             }
             let can_cut = depth < 4 && self.files.len() < self.max_files && !self.leaf_only[file];
+            if can_cut && self.r.chance(1, 30) {
+                // an include of an empty (or blank, or comment-only) file pastes nothing
+                let child = self.new_file(file);
+                let (written, pre) = self.place(child, file);
+                self.files[child].3 = match self.r.below(3) {
+                    0 => vec![],
+                    1 => vec![String::new(), "   ".to_string()],
+                    _ => vec!["; nothing here".to_string()],
+                };
+                let mut l = pre;
+                l.push(format!(".include \"{}\"", written));
+                out.push(Node::Lines(l));
+            }
             if can_cut && self.r.chance(1, 4) {
                 let len = 1 + self.r.usize((nodes.len() - i).min(5));
                 let child_nodes: Vec<Node> = nodes[i..i + len].to_vec();
@@ -436,8 +449,12 @@ pub fn scenario_with(seed: u64, g: u64, layout: &Layout) -> Scenario {
     for (i, (dir, name, _, lines)) in tg.files.iter().enumerate() {
         let mut all = tg.prepend[i].clone();
         all.extend(lines.iter().cloned());
-        let mut text = all.join("\n");
-        text.push('\n');
+        // text formats that must not matter: CRLF line ends, no newline at the end of the file
+        let eol = if tg.r.chance(1, 7) { "\r\n" } else { "\n" };
+        let mut text = all.join(eol);
+        if !tg.r.chance(1, 7) || all.is_empty() {
+            text.push_str(eol);
+        }
         files.insert(format!("{}/{}", dir, name), text);
     }
     let edges: Vec<(String, String, String)> = tg.edges.iter().map(|(p, c, k)| (format!("{}/{}", tg.files[*p].0, tg.files[*p].1), format!("{}/{}", tg.files[*c].0, tg.files[*c].1), k.clone())).collect();
@@ -1151,6 +1168,9 @@ pub fn worker(cfg: &WorkerCfg, emit: &mut dyn FnMut(Violation)) -> Stats {
         cx.stats.probe("file_included_more_than_once", sc.edges.iter().filter(|e| e.2 == "c2").count() >= 2);
         cx.stats.probe("second_build_after_an_include_was_edited", false);
         cx.stats.probe("second_build_after_an_include_was_moved", false);
+        cx.stats.probe("included_file_with_crlf_line_ends", opened.iter().any(|e| sc.files.get(&e.1).map(|t| t.contains("\r\n")).unwrap_or(false)));
+        cx.stats.probe("included_file_without_final_newline", opened.iter().any(|e| sc.files.get(&e.1).map(|t| !t.is_empty() && !t.ends_with('\n')).unwrap_or(false)));
+        cx.stats.probe("empty_included_file", opened.iter().any(|e| sc.files.get(&e.1).map(|t| t.trim().is_empty()).unwrap_or(false)));
         cx.stats.probe("cwd_deep_below_the_root", sc.cwd.contains('/'));
         cx.stats.probe("cwd_is_the_main_files_directory", incmodel::dirname(&sc.main_file) == sc.cwd);
         cx.stats.probe("include_inside_a_conditional_branch", {
